@@ -9,6 +9,7 @@ Oracle: reference model "first matching response delivered before the deadline".
 """
 from __future__ import annotations
 
+import copy
 import random
 import uuid as _uuid
 
@@ -23,7 +24,7 @@ RULE = ("scenario = one client call (send_message or a typed helper) + 0..12 tim
         "{matching result/error, same-id server request, other-id response (near misses), notification, progress, "
         "batch list, duplicate match, null result}; non-trivial = at least one distractor or boundary-placed delivery "
         "was consumed while the request was in flight")
-PROBES = ["follow_up_call_on_same_streams", "call_with_progress_callback", "write_stream_stalled", "delivery_exactly_at_deadline", "delivery_exactly_on_poll_edge", "match_after_deadline",
+PROBES = ["stream_closed_without_matching_response", "call_with_never_fired_token", "follow_up_call_on_same_streams", "call_with_progress_callback", "write_stream_stalled", "delivery_exactly_at_deadline", "delivery_exactly_on_poll_edge", "match_after_deadline",
           "same_id_request_delivered", "batch_delivered", "prequeued_before_call"]
 TIERS = {"quick": {"runs": 40000, "wall": 45.0}, "thorough": {"runs": 4000000, "wall": 560.0}}
 ASSUMPTIONS = [
@@ -171,10 +172,15 @@ def generate(rng: random.Random, tier: str) -> dict:
         if kind == "match_result" and api == "send_message" and mode == "parse_message" and rng.random() < 0.15:
             ev["scalar"] = rng.choice(["list", "str", "int", "emptydict", "false", "zero"])
         events.append(ev)
-    return {"v": 1, "api": api, "mode": mode, "uuid_seed": uuid_seed, "message_id": mid, "method": method,
+    # the connection goes away while the request is pending: the read stream's sending side is closed (transport shut down)
+    close_at = None
+    if api == "send_message" and slow_writer is None and rng.random() < 0.08:
+        close_at = rng.choice([t0, t0 + 1, t0 + 512, rng.randrange(t0, deadline_t + 1), deadline_t])
+    with_token = api == "send_message" and rng.random() < 0.25   # a cancellation token that never fires
+    return {"v": 1, "close_at": close_at, "with_token": with_token, "api": api, "mode": mode, "uuid_seed": uuid_seed, "message_id": mid, "method": method,
             "params": params, "timeout": timeout, "t0": t0, "events": events, "with_progress": with_progress, "slow_writer": slow_writer,
             # the connection is used again afterwards: a plain second request on the same streams, answered 3 ticks after it is written
-            "follow_up": (api == "send_message" and slow_writer is None and rng.random() < 0.3)}
+            "follow_up": (api == "send_message" and slow_writer is None and close_at is None and rng.random() < 0.3)}
 
 
 def systematic(tier: str):
@@ -208,6 +214,10 @@ def systematic(tier: str):
 
 
 def simplify(scn):
+    if scn.get("close_at") is not None:
+        c = copy.deepcopy(scn); c["close_at"] = None; yield c
+    if scn.get("with_token"):
+        c = copy.deepcopy(scn); c["with_token"] = False; yield c
     if scn.get("follow_up"):
         c = _cp(scn); c["follow_up"] = False; yield c
     if scn.get("slow_writer"):
@@ -323,12 +333,22 @@ def execute(scn: dict) -> dict:
             if obj is None:
                 sim.rec("peer", "unbuildable", ev["kind"])
                 return
+            if st.get("t_closed") is not None:
+                sim.rec("peer", "undeliverable-after-close", ev["kind"])
+                return
             e = sim.rec("peer", "deliver:" + ev["kind"], None)
             delivered.append({"eseq": e, "t": sim.now(), "i": i, "ev": ev, "data": data})
             to_client_send.send_nowait(obj)
 
         for i, ev in enumerate(scn["events"]):
             sim.at(ticks(ev["t"]), deliver, i, ev, tie=ev["tie"], hops=ev["hops"])
+        if scn.get("close_at") is not None:
+            def close_stream():
+                st["t_closed"] = sim.now()
+                st["closed_eseq"] = sim.rec("peer", "read-stream-closed", None)
+                sim.fault("read_stream_closed_while_pending")
+                to_client_send.close()
+            sim.at(ticks(scn["close_at"]), close_stream, tie=2)
 
         if T0 > 0:
             await anyio.sleep(T0)
@@ -344,6 +364,8 @@ def execute(scn: dict) -> dict:
                     async def _cb(progress, total, message):
                         st.setdefault("cb", []).append((progress, total, message))
                     kw["progress_callback"] = _cb
+                if scn.get("with_token"):
+                    kw["cancellation_token"] = sm.CancellationToken()
                 res = await sm.send_message(rr, ws, scn["method"], copy.deepcopy(scn["params"]), **kw)
             else:
                 kwargs, _, _, _ = _helpers()[api]
@@ -487,6 +509,12 @@ def _oracle(scn, st, rid, sim, out):
         acceptable.append(("timeout", None))
         for d in at_edge:
             acceptable.append(expected_for(d))
+        if st.get("t_closed") is not None and st["t_closed"] <= deadline:
+            # no matching response and the stream went away: the call must FAIL (how is open: end-of-stream error now, or the timeout) - never return
+            acceptable.append(("closed", None))
+            probe("stream_closed_without_matching_response")
+    if scn.get("with_token"):
+        probe("call_with_never_fired_token")
 
     # ---- actual outcome ----------------------------------------------------------------
     actual = _classify(api, kind, val, rid)
@@ -505,7 +533,7 @@ def _oracle(scn, st, rid, sim, out):
             _v(out, "wrong-error", cause, f"call raised JSON-RPC error {actual!r:.200}; acceptable={acceptable!r:.200}")
         else:
             _v(out, "unexpected-exception", actual[1], f"call raised {actual!r:.200}; acceptable={acceptable!r:.200}")
-    if actual[0] == "timeout" and ("timeout", None) in acceptable and st["t_done"] != deadline and api == "send_message":
+    if actual[0] == "timeout" and ("timeout", None) in acceptable and st["t_done"] != deadline and api == "send_message" and st.get("t_closed") is None:
         _v(out, "timeout-instant", "not-at-deadline", f"TimeoutError raised at {st['t_done']}, deadline was {deadline}")
 
 
@@ -538,6 +566,10 @@ def _contains_marker(x, m):
 
 def _outcome_ok(api, actual, acceptable):
     for acc in acceptable:
+        if acc[0] == "closed":
+            if actual[0] in ("exception", "timeout"):
+                return True
+            continue
         if acc[0] == "timeout":
             if api in BOOL_HELPERS:
                 if actual == ("bool", False):
